@@ -12,6 +12,8 @@ from sympy.core.numbers    import ImaginaryUnit
 from sympy.core.containers import Tuple
 from sympy                 import S
 from sympy                 import sqrt, symbols
+from sympy                 import Float
+from sympy.matrices.utilities import dotprodsimp
 from sympy.core.exprtools  import factor_terms
 from sympy.polys.polytools import parallel_poly_from_expr
 
@@ -263,7 +265,14 @@ class Mapping(BasicMapping):
             obj._jac     = Jacobian(obj)
 
         obj._metric     = obj._jac.T*obj._jac
-        obj._metric_det = obj._metric.det()
+        if obj._metric.has(Float):
+            # With floating-point parameters sympy's intermediate simplification of the determinant
+            # (dotprodsimp -> cancel) does not cancel exactly and returns a huge, inaccurate and
+            # ill-conditioned expression (CzarnyMapping: errors of 1%-50%); keep the plain formula.
+            with dotprodsimp(False):
+                obj._metric_det = obj._metric.det()
+        else:
+            obj._metric_det = obj._metric.det()
 
         return obj
 
